@@ -23,7 +23,7 @@ from __future__ import annotations
 
 from hypothesis import strategies as st
 
-from .. import known
+from .. import fp, known
 from ..core import Eval, Family, HarnessError
 from . import _c17_prog as P
 
@@ -137,13 +137,13 @@ def draw_out(draw, allow_multi, frame_params):
         shape = "frame"
     elif getter in (1, -1):
         # tuple / list bodies return (scalar, frame): index 1 and index -1 designate the same element
-        shape = draw(st.sampled_from(["tuple", "list"]))
+        shape = draw(st.sampled_from(["tuple", "list", "tuple", "list", "deque"]))
     elif getter == "k":
-        shape = "dict"
+        shape = draw(st.sampled_from(["dict", "dict", "userdict"]))
     elif getter == 0:
         shape = "pair"
     else:
-        shape = draw(st.sampled_from(["frame", "tuple", "list", "dict", "nested", "pair"]))
+        shape = draw(st.sampled_from(["frame", "tuple", "list", "dict", "nested", "pair", "userdict", "deque"]))
     sk = draw(st.sampled_from(["gt0", "coerce", "coerce"]))
     outs = [{"getter": getter, "schema": sk}]
     form = "list"
@@ -782,6 +782,102 @@ def eval_polars(case):
 # ------------------------------------------------------------------------ selftest
 
 
+# ------------------------------------------------------------------ integer getter into *args
+
+
+@st.composite
+def strat_varargs(draw):
+    """check_input(schema, i) on functions / methods that take their frames through *frames: the integer designates the
+    i-th positional argument of the call (self not counted), wherever the signature puts it."""
+    lead = draw(st.integers(0, 2))  # named positional parameters in front of *frames
+    nvar = draw(st.integers(1, 3))
+    kwonly = draw(st.sampled_from([None, None, False, True]))  # a keyword-only flag after *frames: absent / default / passed
+    npos = lead + nvar
+    getter = draw(st.integers(0, npos - 1))
+    sk = draw(st.sampled_from(["gt0", "coerce", "coerce"]))
+    vals = []
+    for i in range(npos):
+        if i == getter or draw(st.integers(0, 2)) == 0:
+            vals.append(draw(frame_spec(sk)))
+        else:
+            vals.append(draw(st.sampled_from(PLAIN)))
+    return {"kind": draw(st.sampled_from(["function", "function", "method", "staticmethod", "classmethod"])), "lead": lead,
+            "nvar": nvar, "kwonly": kwonly, "getter": getter, "schema": sk, "vals": vals,
+            "lazy": draw(st.integers(0, 4)) == 0}
+
+
+def eval_varargs(case):
+    import pandera as pa
+
+    ev = Eval()
+    ev.labels += ["va:kind=" + case["kind"], f"va:lead={case['lead']}", "va:getter-in-varargs" if case["getter"] >= case["lead"]
+                  else "va:getter-named", "va:kwonly=" + str(case["kwonly"])]
+    schema = P.schema_of(case["schema"])
+    opts = dict(P.DEFAULT_OPTS, lazy=bool(case["lazy"]))
+    log = []
+    names = ["p%d" % i for i in range(case["lead"])]
+    has_self = case["kind"] in ("method", "classmethod")
+    src = "def f(" + ", ".join((["self"] if case["kind"] == "method" else ["cls"] if case["kind"] == "classmethod" else [])
+                               + names + ["*frames"] + (["upper=False"] if case["kwonly"] is not None else [])) + "):\n"
+    src += "    LOG.append((" + ", ".join(names + ["frames"] + (["upper"] if case["kwonly"] is not None else [])) + ",))\n    return 'done'\n"
+    ns = {"LOG": log}
+    exec(src, ns)  # noqa: S102 - harness-generated source
+    raw = ns["f"]
+    try:
+        dec = pa.check_input(schema, case["getter"], **P.nondefault_opts(opts))(raw)
+    except Exception as e:  # noqa: BLE001
+        ev.add("varargs:decorating-raised:" + type(e).__name__, {"msg": str(e)[:200]})
+        return ev
+    kind = case["kind"]
+    if kind == "function":
+        call = dec
+    else:
+        wrapped = {"method": dec, "staticmethod": staticmethod(dec), "classmethod": classmethod(dec)}[kind]
+        K = type("K", (), {"f": wrapped})
+        call = K().f
+    try:
+        args = [P.build_value(v) for v in case["vals"]]
+    except P.Skip as s:
+        ev.skipped = str(s)
+        return ev
+    kw = {"upper": True} if case["kwonly"] else {}
+    target = args[case["getter"]]
+    try:
+        verdict, parsed = P.validate_outcome(schema, target, opts)
+    except P.Skip as s:
+        ev.skipped = str(s)
+        return ev
+    ev.labels.append("va:expect=" + ("returns" if verdict == "ok" else "rejected"))
+    ev.nontrivial = case["getter"] >= case["lead"] or has_self
+    res = fp.outcome(lambda: call(*args, **kw))
+    if verdict != "ok":
+        if res["kind"] not in ("SchemaError", "SchemaErrors"):
+            ev.add("varargs:invalid-designated-argument-not-rejected:" + res["kind"],
+                   {"exc": res.get("exc_type"), "msg": str(res.get("msg"))[:200], "body_calls": len(log)})
+        elif log:
+            ev.add("varargs:body-ran-on-rejected-input", {"body_calls": len(log)})
+        return ev
+    if res["kind"] != "ok":
+        ev.add("varargs:valid-call-raised:" + str(res.get("exc_type") or res["kind"]), {"msg": str(res.get("msg"))[:200]})
+        return ev
+    if len(log) != 1 or res["value"] != "done":
+        ev.add("varargs:body-not-run-once", {"body_calls": len(log), "result": repr(res["value"])[:80]})
+        return ev
+    seen = log[0]
+    got = list(seen[:case["lead"]]) + list(seen[case["lead"]])
+    for i, (g, a) in enumerate(zip(got, args)):
+        if i == case["getter"]:
+            if fp.snapshot(g) != fp.snapshot(parsed):
+                ev.add("varargs:body-did-not-get-the-parsed-object", {"pos": i, "diff": fp.fp_diff(fp.snapshot(parsed), fp.snapshot(g))[:3]})
+        elif g is not a:
+            ev.add("varargs:other-argument-replaced", {"pos": i})
+    if len(got) != len(args):
+        ev.add("varargs:argument-count-changed", {"passed": len(args), "seen": len(got)})
+    if case["kwonly"] is not None and seen[-1] is not bool(case["kwonly"]):
+        ev.add("varargs:keyword-only-argument-changed", {"passed": case["kwonly"], "seen": repr(seen[-1])})
+    return ev
+
+
 # ------------------------------------------------------------------ sample= / random_state= reach the validation
 
 
@@ -916,6 +1012,8 @@ FAMILIES = [
     Family("polars", eval_polars, strategy=strat_polars, n_quick=500, n_thorough=3000, shards_quick=3, shards_thorough=8,
            required_labels=["pl:deco=check_input", "pl:deco=check_output", "pl:deco=check_io", "pl:deco=check_types",
                             "pl:expect=rejected-at-input", "pl:expect=returns", "pl:container=lf"]),
+    Family("varargs", eval_varargs, strategy=strat_varargs, n_quick=400, n_thorough=3000, shards_quick=2, shards_thorough=8,
+           required_labels=["va:getter-in-varargs", "va:kind=method", "va:expect=rejected", "va:kwonly=True"]),
     Family("sample_state", evaluate, strategy=strat_sample_state, n_quick=300, n_thorough=2000, shards_quick=3,
            shards_thorough=8, required_labels=["opt:sample", "options-decisive", "deco=check_io", "deco=check_types"]),
     Family("shared", eval_shared, strategy=strat_shared, n_quick=400, n_thorough=2500, shards_quick=3, shards_thorough=8,
